@@ -263,5 +263,14 @@ PROPS['C07'] = dict(
          U('zz_tet_k5', 'C07_zigzag.cpp', ['VP_K=5', 'VP_NV=4'], cflags=['-U__SSE2__'], weight=10, must_reach=['end', 'insert', 'remove']),
          U('zz_tri_k8', 'C07_zigzag.cpp', ['VP_K=8', 'VP_NV=3'], cflags=['-U__SSE2__'], tiers=['thorough'], weight=40, must_reach=['end']), U('zz_tet_k7', 'C07_zigzag.cpp', ['VP_K=7', 'VP_NV=4'], cflags=['-U__SSE2__'], tiers=['thorough'], weight=40, must_reach=['end'])])
 
+# ------------------------------------------------------------------------------------------------ C12
+PROPS['C12'] = dict(
+  explanation='Bounded symbolic execution of the real flag_complex_collapse_edges (Flag_complex_edge_collapser, both neighbour-table implementations; clang IR of the headers in /repo): presence and weight of every possible edge are solver variables; on every path the output is a subset of the input edges with values not smaller, and the dense Z_2 persistence diagrams (all dimensions) of the flag filtrations of input and output, both computed by an in-harness oracle that does the clique expansion definitionally, are equal.',
+  bounds=dict(quick='every graph on 4 vertices with each edge absent or weighted 1..3 (flat-map neighbour tables) / 1..2 (dense-array tables, permuted vertex labels); every graph on 5 vertices with unit weights; weights are finite-grid doubles', thorough='5 vertices, weights 1..3, dense tables; float weights 1..4 on 4 vertices'),
+  outside=['graphs with more than 5 vertices', 'TBB parallel sort (sequential build only)'],
+  units=[U('collapse_n4_w3', 'C12_collapse.cpp', ['VP_N=4', 'VP_WMAX=3', 'VP_WT=double', 'VP_GRIDW'], cflags=['-U__SSE2__'], weight=10), U('collapse_n4_w2_dense_labels', 'C12_collapse.cpp', ['VP_N=4', 'VP_WMAX=2', 'VP_LABELS=1', 'VP_WT=double', 'VP_GRIDW', 'GUDHI_COLLAPSE_USE_DENSE_ARRAY'], cflags=['-U__SSE2__'], weight=8),
+         U('collapse_n5_w1', 'C12_collapse.cpp', ['VP_N=5', 'VP_WMAX=1', 'VP_WT=double', 'VP_GRIDW'], cflags=['-U__SSE2__'], weight=10), U('collapse_n5_w2', 'C12_collapse.cpp', ['VP_N=5', 'VP_WMAX=2', 'VP_WT=double', 'VP_GRIDW'], cflags=['-U__SSE2__'], tiers=['thorough'], weight=60),
+         U('collapse_n5_w3_dense', 'C12_collapse.cpp', ['VP_N=5', 'VP_WMAX=3', 'VP_WT=double', 'VP_GRIDW', 'GUDHI_COLLAPSE_USE_DENSE_ARRAY'], cflags=['-U__SSE2__'], tiers=['thorough'], weight=60), U('collapse_n4_float_w4', 'C12_collapse.cpp', ['VP_N=4', 'VP_WMAX=4', 'VP_WT=float', 'VP_GRIDW'], cflags=['-U__SSE2__'], tiers=['thorough'], weight=40)])
+
 NOT_APPLICABLE = {}
 NOTES = 'Clauses outside every claim: real thread schedules/TBB execution (engine is sequential), iostream text I/O, GMP arbitrary precision, Eigen-based Coxeter point location under general affine maps, SIMD paths of boost::unordered_flat_map (compiled with -U__SSE2__), allocation failure, inputs beyond the stated bounds.'
